@@ -31,7 +31,7 @@ theorem walk_none_get (cfg : Cfg) (f : Nat) (s : State) (t : Nat) (y : Nat) :
 
 /-- the walk does not touch anything outside the subtree of `t` -/
 theorem walk_frame {rk : Nat → Nat} (cfg : Cfg) (f : Nat) :
-    ∀ (s : State) (t : Nat) (op : WOp), Inv rk s → ∀ y, ¬ InSub s t y →
+    ∀ (s : State) (t : Nat) (op : WOp), InvT rk s → ∀ y, ¬ InSub s t y →
       (walk cfg f s t op).1.get y = s.get y := by
   induction f with
   | zero => intro s t op _ y _; simp [walk]
@@ -80,5 +80,331 @@ theorem walk_frame {rk : Nat → Nat} (cfg : Cfg) (f : Nat) :
             · exact Or.inr hanc
             · exact Or.inr (hanc.trans h)
         rw [hfold _ _ (walkSync_eqButUse s t tb op) (fun c hc => hc), h0]
+
+
+/-- the child loop of the walk does not touch `y` when `y` is in none of the visited subtrees -/
+theorem walk_fold_frame {rk : Nat → Nat} {s : State} (i : InvT rk s) (cfg : Cfg) (f : Nat) (t : Nat) (tb : Obj)
+    (ht : s.get t = some tb) (op1 : WOp) (y : Nat) :
+    ∀ (l : List Id) (acc : State × Nat), EqButUse s acc.1 → (∀ c ∈ l, c ∈ tb.children) →
+      (∀ c ∈ l, ¬ InSub s c y) →
+      (l.foldl (fun (acc : State × Nat) c =>
+        ((walk cfg f acc.1 c op1).1, acc.2 + (walk cfg f acc.1 c op1).2)) acc).1.get y = acc.1.get y := by
+  intro l
+  induction l with
+  | nil => intro acc _ _ _; rfl
+  | cons c l ihl =>
+    intro acc he hsub hout
+    simp only [List.foldl_cons]
+    have he2 := he.trans (walk_eqButUse cfg f acc.1 c op1)
+    have hrec := ihl ((walk cfg f acc.1 c op1).1, acc.2 + (walk cfg f acc.1 c op1).2) he2
+      (fun d hd => hsub d (List.mem_cons_of_mem _ hd)) (fun d hd => hout d (List.mem_cons_of_mem _ hd))
+    rw [hrec]
+    apply walk_frame cfg f acc.1 c op1 ⟨i.wf.shapeEq he.shapeEq, i.ranked.shapeEq he.shapeEq⟩
+    intro hin
+    exact hout c List.mem_cons_self ((InSub.congr he.parentOf).1 hin)
+
+theorem walk_fold_eqButUse (cfg : Cfg) (f : Nat) (op1 : WOp) :
+    ∀ (l : List Id) (acc : State × Nat), EqButUse acc.1
+      (l.foldl (fun (acc : State × Nat) c =>
+        ((walk cfg f acc.1 c op1).1, acc.2 + (walk cfg f acc.1 c op1).2)) acc).1 := by
+  intro l
+  induction l with
+  | nil => intro acc; exact .refl _
+  | cons c l ihl =>
+    intro acc
+    simp only [List.foldl_cons]
+    exact (walk_eqButUse cfg f acc.1 c op1).trans
+      (ihl ((walk cfg f acc.1 c op1).1, acc.2 + (walk cfg f acc.1 c op1).2))
+
+theorem walk_fold_flagsLe (cfg : Cfg) (f : Nat) (op1 : WOp) :
+    ∀ (l : List Id) (acc : State × Nat), FlagsLe acc.1
+      (l.foldl (fun (acc : State × Nat) c =>
+        ((walk cfg f acc.1 c op1).1, acc.2 + (walk cfg f acc.1 c op1).2)) acc).1 := by
+  intro l
+  induction l with
+  | nil => intro acc; exact .refl _
+  | cons c l ihl =>
+    intro acc
+    simp only [List.foldl_cons]
+    exact (walk_flagsLe cfg f acc.1 c op1).trans
+      (ihl ((walk cfg f acc.1 c op1).1, acc.2 + (walk cfg f acc.1 c op1).2))
+
+/-- `OP_SET_MEMLIMIT`: every chunk of the subtree carries the USE flag afterwards -/
+theorem walk_set {rk : Nat → Nat} (cfg : Cfg) (f : Nat) :
+    ∀ (s : State) (t : Nat), InvT rk s →
+      (∀ z zb, InSub s t z → s.get z = some zb → zb.pending = false) →
+      (∃ tb, s.get t = some tb) → (walk cfg f s t .set).1.oof = false →
+      ∀ y, InSub s t y → ∀ yb, s.get y = some yb →
+        ∃ yb', (walk cfg f s t .set).1.get y = some yb' ∧ yb'.useLim = true := by
+  induction f with
+  | zero => intro s t _ _ _ hoof; simp [walk] at hoof
+  | succ f ih =>
+    intro s t i hnp ⟨tb, ht⟩ hoof y hy yb hyb
+    simp only [walk, ht] at hoof ⊢
+    have htp : tb.pending = false := hnp t tb (Or.inl rfl) ht
+    simp only [htp, Bool.false_eq_true, if_false, walkSync] at hoof ⊢
+    have he0 : EqButUse s (s.modify t fun x => { x with useLim := true }) :=
+      eqButUse_modify s t _ (fun _ => rfl)
+    rcases hy with rfl | hy
+    · -- t itself: set by the sync, untouched by the children
+      rw [walk_fold_frame i cfg f y tb ht .set y tb.children _ he0 (fun c hc => hc)]
+      · exact ⟨{ tb with useLim := true }, by simp [ht], rfl⟩
+      · intro c hc hin
+        obtain ⟨cb, hcb, hcp, -⟩ := i.wf.childBack y tb c ht hc
+        have hanc : Anc s y c := Anc.parent (by rw [parentOf_eq hcb]; exact hcp)
+        rcases hin with rfl | h
+        · exact Anc.irrefl i.ranked hanc
+        · exact Anc.irrefl i.ranked (hanc.trans h)
+    · -- below a child
+      obtain ⟨c0, hc0, hin0⟩ := (anc_iff_child i.wf t tb ht y hnp).1 hy
+      have hyt : y ≠ t := by
+        intro e; subst e; exact Anc.irrefl i.ranked hy
+      -- generalised over the remaining children
+      have hfold : ∀ (l : List Id) (acc : State × Nat), EqButUse s acc.1 → (∀ c ∈ l, c ∈ tb.children) →
+          l.Nodup → c0 ∈ l →
+          (l.foldl (fun (acc : State × Nat) c =>
+            ((walk cfg f acc.1 c .set).1, acc.2 + (walk cfg f acc.1 c .set).2)) acc).1.oof = false →
+          ∃ yb', (l.foldl (fun (acc : State × Nat) c =>
+            ((walk cfg f acc.1 c .set).1, acc.2 + (walk cfg f acc.1 c .set).2)) acc).1.get y = some yb' ∧
+            yb'.useLim = true := by
+        intro l
+        induction l with
+        | nil => intro acc _ _ _ hm; cases hm
+        | cons c l ihl =>
+          intro acc he hsub hnd hm hoof'
+          simp only [List.foldl_cons] at hoof' ⊢
+          have hnd' := List.nodup_cons.1 hnd
+          have he2 := he.trans (walk_eqButUse cfg f acc.1 c .set)
+          rcases List.mem_cons.1 hm with rfl | hm'
+          · -- this child: its walk sets the flag, the later ones do not touch y
+            rw [walk_fold_frame i cfg f t tb ht .set y l
+              ((walk cfg f acc.1 c0 .set).1, acc.2 + (walk cfg f acc.1 c0 .set).2) he2
+              (fun d hd => hsub d (List.mem_cons_of_mem _ hd))]
+            · have hoofc : (walk cfg f acc.1 c0 .set).1.oof = false :=
+                oof_false_of_le (walk_fold_flagsLe cfg f .set l
+                  ((walk cfg f acc.1 c0 .set).1, acc.2 + (walk cfg f acc.1 c0 .set).2)) hoof'
+              obtain ⟨cb, hcb, hcp, -⟩ := i.wf.childBack t tb c0 ht hc0
+              have hanc : Anc s t c0 := Anc.parent (by rw [parentOf_eq hcb]; exact hcp)
+              obtain ⟨cb', hcb', -⟩ := he.get hcb
+              obtain ⟨yb1, hyb1, -⟩ := he.get hyb
+              apply ih acc.1 c0 ⟨i.wf.shapeEq he.shapeEq, i.ranked.shapeEq he.shapeEq⟩ ?_ ⟨cb', hcb'⟩ hoofc y
+                ((InSub.congr he.parentOf).2 hin0) yb1 hyb1
+              intro z zb hz hzb
+              have hz' : InSub s c0 z := (InSub.congr he.parentOf).1 hz
+              obtain ⟨zb0, hzb0, e0⟩ := he.symm.get hzb
+              have hzt : InSub s t z := by
+                rcases hz' with rfl | h
+                · exact Or.inr hanc
+                · exact Or.inr (hanc.trans h)
+              have := hnp z zb0 hzt hzb0
+              rw [e0] at this; exact this
+            · intro d hd hin
+              have hne : c0 ≠ d := fun e => hnd'.1 (e ▸ hd)
+              exact sub_disjoint i t tb ht c0 d hc0 (hsub d (List.mem_cons_of_mem _ hd)) hne y ⟨hin0, hin⟩
+          · exact ihl ((walk cfg f acc.1 c .set).1, acc.2 + (walk cfg f acc.1 c .set).2) he2
+              (fun d hd => hsub d (List.mem_cons_of_mem _ hd)) hnd'.2 hm' hoof'
+      exact hfold tb.children _ he0 (fun c hc => hc) (i.wf.childNodup t tb ht) hc0 hoof
+
+
+/-- an object is as before, or has lost its USE flag and carries no limit itself -/
+def Cleared (yb yb' : Obj) : Prop := yb' = yb ∨ (yb' = { yb with useLim := false } ∧ yb.hasLim = false)
+
+theorem Cleared.trans {a b c : Obj} (h1 : Cleared a b) (h2 : Cleared b c) : Cleared a c := by
+  rcases h1 with rfl | ⟨rfl, h1⟩
+  · exact h2
+  · rcases h2 with rfl | ⟨rfl, h2⟩
+    · exact Or.inr ⟨rfl, h1⟩
+    · exact Or.inr ⟨rfl, h1⟩
+
+/-- `OP_CLEAR_MEMLIMIT` / `OP_NONE` only ever clear USE flags, and never on a context that carries a limit -/
+theorem walk_cleared (cfg : Cfg) (f : Nat) :
+    ∀ (s : State) (t : Nat) (op : WOp), op ≠ .set → ∀ (y : Nat) yb yb', s.get y = some yb →
+      (walk cfg f s t op).1.get y = some yb' → Cleared yb yb' := by
+  induction f with
+  | zero => intro s t op _ y yb yb' h1 h2; simp only [walk, get_setOof] at h2; rw [h1] at h2; cases h2; exact Or.inl rfl
+  | succ f ih =>
+    intro s t op hop y yb yb' h1 h2
+    simp only [walk] at h2
+    cases ht : s.get t with
+    | none => simp only [ht] at h2; rw [h1] at h2; cases h2; exact Or.inl rfl
+    | some tb =>
+      simp only [ht] at h2
+      split at h2
+      · rw [h1] at h2; cases h2; exact Or.inl rfl
+      · -- the sync step
+        have hsync : ∀ yb0, (walkSync s t tb op).1.get y = some yb0 → Cleared yb yb0 := by
+          intro yb0 h0
+          cases op with
+          | set => exact absurd rfl hop
+          | none => simp only [walkSync] at h0; rw [h1] at h0; cases h0; exact Or.inl rfl
+          | clear =>
+            simp only [walkSync] at h0
+            split at h0
+            · rw [h1] at h0; cases h0; exact Or.inl rfl
+            · rename_i hh
+              rw [get_modify_some] at h0
+              rcases h0 with ⟨-, h0⟩ | ⟨rfl, o0, h0, rfl⟩
+              · rw [h1] at h0; cases h0; exact Or.inl rfl
+              · rw [h1] at h0; cases h0
+                rw [ht] at h1; cases h1
+                exact Or.inr ⟨rfl, by simpa using hh⟩
+        have hop1 : (walkSync s t tb op).2 ≠ .set := by
+          cases op with
+          | set => exact absurd rfl hop
+          | none => simp [walkSync]
+          | clear => simp only [walkSync]; split <;> simp
+        have hfold : ∀ (l : List Id) (acc : State × Nat) ya yz, acc.1.get y = some ya →
+            (l.foldl (fun (acc : State × Nat) c =>
+              ((walk cfg f acc.1 c (walkSync s t tb op).2).1,
+                acc.2 + (walk cfg f acc.1 c (walkSync s t tb op).2).2)) acc).1.get y = some yz →
+            Cleared ya yz := by
+          intro l
+          induction l with
+          | nil =>
+            intro acc ya yz ha hz
+            simp only [List.foldl_nil] at hz
+            rw [ha] at hz; cases hz; exact Or.inl rfl
+          | cons c l ihl =>
+            intro acc ya yz ha hz
+            simp only [List.foldl_cons] at hz
+            obtain ⟨ym, hym, -⟩ := (walk_eqButUse cfg f acc.1 c (walkSync s t tb op).2).get ha
+            exact (ih acc.1 c _ hop1 y ya ym ha hym).trans
+              (ihl ((walk cfg f acc.1 c (walkSync s t tb op).2).1,
+                acc.2 + (walk cfg f acc.1 c (walkSync s t tb op).2).2) ym yz hym hz)
+        obtain ⟨y0, hy0, -⟩ := (walkSync_eqButUse s t tb op).get h1
+        exact (hsync y0 hy0).trans (hfold _ ((walkSync s t tb op).1, 0) y0 yb' hy0 h2)
+
+
+theorem Anc.anc_live {s : State} (w : WFt s) {a x : Nat} (h : Anc s a x) : ∃ ab, s.get a = some ab := by
+  induction h with
+  | @parent x p hp =>
+    obtain ⟨xb, hx, hpp⟩ := parentOf_some hp
+    obtain ⟨pb, hpb, -⟩ := w.parentLive x xb p hx hpp; exact ⟨pb, hpb⟩
+  | @up x p a hp _ ih => exact ih
+
+/-- locality of the child loop: what happens inside the subtree of child `c0` is what the walk of
+`c0` does, started in a state that agrees with the initial one on that subtree -/
+theorem walk_fold_local {rk : Nat → Nat} {s : State} (i : InvT rk s) (cfg : Cfg) (f : Nat) (t : Nat) (tb : Obj)
+    (ht : s.get t = some tb) (op1 : WOp) (c0 : Nat) :
+    ∀ (l : List Id) (acc : State × Nat), EqButUse s acc.1 → (∀ c ∈ l, c ∈ tb.children) → l.Nodup → c0 ∈ l →
+      ∃ accb : State, EqButUse s accb ∧ (∀ z, InSub s c0 z → accb.get z = acc.1.get z) ∧
+        ∀ z, InSub s c0 z →
+          (l.foldl (fun (acc : State × Nat) c =>
+            ((walk cfg f acc.1 c op1).1, acc.2 + (walk cfg f acc.1 c op1).2)) acc).1.get z =
+          (walk cfg f accb c0 op1).1.get z := by
+  intro l
+  induction l with
+  | nil => intro acc _ _ _ hm; cases hm
+  | cons c l ihl =>
+    intro acc he hsub hnd hm
+    simp only [List.foldl_cons]
+    have hnd' := List.nodup_cons.1 hnd
+    have he2 := he.trans (walk_eqButUse cfg f acc.1 c op1)
+    have hc : c ∈ tb.children := hsub c List.mem_cons_self
+    rcases List.mem_cons.1 hm with rfl | hm'
+    · refine ⟨acc.1, he, fun z _ => rfl, ?_⟩
+      intro z hz
+      apply walk_fold_frame i cfg f t tb ht op1 z l
+        ((walk cfg f acc.1 c0 op1).1, acc.2 + (walk cfg f acc.1 c0 op1).2) he2
+        (fun d hd => hsub d (List.mem_cons_of_mem _ hd))
+      intro d hd hin
+      have hne : c0 ≠ d := fun e => hnd'.1 (e ▸ hd)
+      exact sub_disjoint i t tb ht c0 d hc (hsub d (List.mem_cons_of_mem _ hd)) hne z ⟨hz, hin⟩
+    · obtain ⟨accb, hb1, hb2, hb3⟩ := ihl ((walk cfg f acc.1 c op1).1, acc.2 + (walk cfg f acc.1 c op1).2) he2
+        (fun d hd => hsub d (List.mem_cons_of_mem _ hd)) hnd'.2 hm'
+      refine ⟨accb, hb1, ?_, hb3⟩
+      intro z hz
+      rw [hb2 z hz]
+      apply walk_frame cfg f acc.1 c op1 ⟨i.wf.shapeEq he.shapeEq, i.ranked.shapeEq he.shapeEq⟩
+      intro hin
+      have hne : c0 ≠ c := fun e => hnd'.1 (e ▸ hm')
+      exact sub_disjoint i t tb ht c0 c (hsub c0 (List.mem_cons_of_mem _ hm')) hc hne z
+        ⟨hz, (InSub.congr he.parentOf).1 hin⟩
+
+/-- `OP_CLEAR_MEMLIMIT`: a chunk below `t` only loses its USE flag when its parent has lost it -/
+theorem walk_clear_parent {rk : Nat → Nat} (cfg : Cfg) (f : Nat) :
+    ∀ (s : State) (t : Nat), InvT rk s →
+      (∀ z zb, InSub s t z → s.get z = some zb → zb.pending = false) →
+      ∀ y, Anc s t y → ∀ yb yb', s.get y = some yb → (walk cfg f s t .clear).1.get y = some yb' →
+        yb.useLim = true → yb'.useLim = false →
+        ∃ p pb', parentOf s y = some p ∧ (walk cfg f s t .clear).1.get p = some pb' ∧ pb'.useLim = false := by
+  induction f with
+  | zero =>
+    intro s t _ _ y _ yb yb' h1 h2 hu hu'
+    simp only [walk, get_setOof] at h2; rw [h1] at h2; cases h2; rw [hu] at hu'; cases hu'
+  | succ f ih =>
+    intro s t i hnp y hy yb yb' h1 h2 hu hu'
+    obtain ⟨p0, hp0, -⟩ := hy.cases_parent
+    have hyt : y ≠ t := by intro e; subst e; exact Anc.irrefl i.ranked hy
+    -- t is live (y is beneath it)
+    have htl : ∃ tb, s.get t = some tb := Anc.anc_live i.wf hy
+    obtain ⟨tb, ht⟩ := htl
+    simp only [walk, ht] at h2 ⊢
+    have htp : tb.pending = false := hnp t tb (Or.inl rfl) ht
+    simp only [htp, Bool.false_eq_true, if_false, walkSync] at h2 ⊢
+    by_cases hh : tb.hasLim = true
+    · -- the context carries a limit: OP_NONE below it, nothing changes
+      exfalso
+      simp only [hh, if_true] at h2
+      have hfold : ∀ (l : List Id) (acc : State × Nat),
+          (l.foldl (fun (acc : State × Nat) c =>
+            ((walk cfg f acc.1 c .none).1, acc.2 + (walk cfg f acc.1 c .none).2)) acc).1.get y = acc.1.get y := by
+        intro l
+        induction l with
+        | nil => intro acc; rfl
+        | cons c l ihl => intro acc; simp only [List.foldl_cons]; rw [ihl, walk_none_get]
+      rw [hfold, h1] at h2; cases h2
+      rw [hu] at hu'; cases hu'
+    · have hh' : tb.hasLim = false := by simpa using hh
+      simp only [hh', Bool.false_eq_true, if_false] at h2 ⊢
+      have he0 : EqButUse s (s.modify t fun x => { x with useLim := false }) :=
+        eqButUse_modify s t _ (fun _ => rfl)
+      obtain ⟨c0, hc0, hin0⟩ := (anc_iff_child i.wf t tb ht y hnp).1 hy
+      obtain ⟨cb, hcb, hcp, -⟩ := i.wf.childBack t tb c0 ht hc0
+      have hanc0 : Anc s t c0 := Anc.parent (by rw [parentOf_eq hcb]; exact hcp)
+      obtain ⟨accb, hb1, hb2, hb3⟩ := walk_fold_local i cfg f t tb ht .clear c0 tb.children
+        ((s.modify t fun x => { x with useLim := false }), 0) he0 (fun c hc => hc) (i.wf.childNodup t tb ht) hc0
+      -- t itself is not touched by the child loop
+      have htfin : (tb.children.foldl (fun (acc : State × Nat) c =>
+            ((walk cfg f acc.1 c .clear).1, acc.2 + (walk cfg f acc.1 c .clear).2))
+            ((s.modify t fun x => { x with useLim := false }), 0)).1.get t =
+          some { tb with useLim := false } := by
+        rw [walk_fold_frame i cfg f t tb ht .clear t tb.children _ he0 (fun c hc => hc)]
+        · simp [ht]
+        · intro c hc hin
+          obtain ⟨cb', hcb', hcp', -⟩ := i.wf.childBack t tb c ht hc
+          have hanc : Anc s t c := Anc.parent (by rw [parentOf_eq hcb']; exact hcp')
+          rcases hin with rfl | h
+          · exact Anc.irrefl i.ranked hanc
+          · exact Anc.irrefl i.ranked (hanc.trans h)
+      rcases hin0 with rfl | hin0
+      · -- y is a child of t
+        exact ⟨t, _, by rw [parentOf_eq hcb]; exact hcp, htfin, rfl⟩
+      · -- deeper: the walk of c0 decides
+        rw [hb3 y (Or.inr hin0)] at h2
+        have hya : accb.get y = some yb := by
+          rw [hb2 y (Or.inr hin0)]; simp [Ne.symm hyt, h1]
+        have hnpc : ∀ z zb, InSub accb c0 z → accb.get z = some zb → zb.pending = false := by
+          intro z zb hz hzb
+          have hz' : InSub s c0 z := (InSub.congr hb1.parentOf).1 hz
+          obtain ⟨zb0, hzb0, e0⟩ := hb1.symm.get hzb
+          have hzt : InSub s t z := by
+            rcases hz' with rfl | h
+            · exact Or.inr hanc0
+            · exact Or.inr (hanc0.trans h)
+          have := hnp z zb0 hzt hzb0
+          rw [e0] at this; exact this
+        obtain ⟨p, pb', hp1, hp2, hp3⟩ := ih accb c0 ⟨i.wf.shapeEq hb1.shapeEq, i.ranked.shapeEq hb1.shapeEq⟩
+          hnpc y ((Anc.congr hb1.parentOf).2 hin0) yb yb' hya h2 hu hu'
+        rw [hb1.parentOf] at hp1
+        refine ⟨p, pb', hp1, ?_, hp3⟩
+        -- p is in the subtree of c0 as well
+        have hpin : InSub s c0 p := by
+          obtain ⟨p', hp', hor⟩ := hin0.cases_parent
+          rw [hp1] at hp'; cases hp'
+          rcases hor with rfl | hor
+          · exact Or.inl rfl
+          · exact Or.inr hor
+        rw [hb3 p hpin]; exact hp2
 
 end Usual.C01
